@@ -115,7 +115,7 @@ def retest(only=None):
     worktree of /repo's HEAD and the quick check of the property it breaks must report it."""
     import glob
 
-    wt = '/tmp/wt_retest'
+    wt = os.environ.get('SEEDTOOL_WT', '/tmp/wt_retest')      # several retests may run side by side, each in its own worktree
     sh(f'git -C /repo worktree remove --force {wt}')
     rc, o = sh(f'git -C /repo worktree add -q --detach {wt} HEAD')
     if rc != 0:
@@ -125,7 +125,7 @@ def retest(only=None):
     try:
         for d in sorted(glob.glob(os.path.join(V, 'seeded', '*-*'))):
             sid = os.path.basename(d)
-            if only and sid not in only:
+            if only and sid not in only and sid.split('-')[0] not in only:      # seed ids or whole properties
                 continue
             meta = json.load(open(os.path.join(d, 'meta.json')))
             prop = meta['breaks_property']
@@ -203,7 +203,7 @@ def benign_retest(only=None):
     time, to ONE scratch worktree of /repo's HEAD and the quick check of its property must stay silent."""
     import glob
 
-    wt = '/tmp/wt_benign_retest'
+    wt = os.environ.get('SEEDTOOL_WT', '/tmp/wt_benign_retest')
     sh(f'git -C /repo worktree remove --force {wt}')
     rc, o = sh(f'git -C /repo worktree add -q --detach {wt} HEAD')
     if rc != 0:
@@ -213,7 +213,7 @@ def benign_retest(only=None):
     try:
         for d in sorted(glob.glob(os.path.join(V, 'benign', '*-*'))):
             sid = os.path.basename(d)
-            if only and sid not in only:
+            if only and sid not in only and sid.split('-')[0] not in only:      # seed ids or whole properties
                 continue
             meta = json.load(open(os.path.join(d, 'meta.json')))
             prop = meta['preserves_property']
